@@ -44,7 +44,10 @@ def index_guard(prog, chk, rid):
             shrink = [i for i, n in enumerate(f.nodes) if n["k"] == "UnaryOperator" and "--" in str(n.get("op")) and q.no_casts(f.r(n["c"][0])) == "this->_end.item"]
             shrink += [s.node for s in q.stores(f) if q.no_casts(f.r(s.lhs)) == "this->_end.item" and s.rhs is not None
                        and q.no_casts(f.r(s.rhs)).replace(" ", "") == "(this->_end.item-1)"]
-            if not idx or not shrink:
+            # removal by index may also be expressed through the iterator overload: the call then is the modification to guard
+            deleg = [c for c in q.calls(f) if f.nodes[c]["k"] == "CXXMemberCallExpr" and f.nodes[c].get("callee", "").endswith("::remove")
+                     and (q.call_object(f, c) is None or f.nodes[q.call_object(f, c)]["k"] == "CXXThisExpr")] if f.short == "remove" else []
+            if not idx or not (shrink or deleg):
                 continue     # only removal by index: the member shrinks the array by one element
             defs = q.local_defs(f)
             size_texts = ("(this->_end.item - this->_begin.item)", "this->size()")
@@ -52,6 +55,7 @@ def index_guard(prog, chk, rid):
                 mods = [s.node for s in q.stores(f) if q.no_casts(f.r(s.lhs)) == "this->_end.item" or q.no_casts(f.r(s.lhs)).startswith("*")]
                 mods += [i for i, n in enumerate(f.nodes) if n["k"] == "UnaryOperator" and "--" in str(n.get("op")) and q.no_casts(f.r(n["c"][0])) == "this->_end.item"]
                 mods += [d for d, _o in C.dtor_events(f)]
+                mods += deleg
                 bad = None
                 for m in sorted(set(mods)):
                     pos = f.node_pos(m)
